@@ -166,7 +166,9 @@ def run_pipeline(case, data, tmpdir, script_override=None, decisions=None, strat
             else:
                 # (the source delivers a few blocks and then pauses until the writer thread exists: a tokenizer that reached
                 #  the end of the stream before that would join a thread that was never started - the caller's mistake)
-                reader.vf_gate = (min(case.get("sched_seed", 0) % 4, max(0, len(case["v"]) - 1)), lambda: holder.get("saver_started", False))
+                #  (a stop requested by an observer ends the tokenizer just the same: then nothing is delivered before the writer exists)
+                gate_at = 0 if (case.get("stop") or {}).get("by") == "observer" else min(case.get("sched_seed", 0) % 4, max(0, len(case["v"]) - 1))
+                reader.vf_gate = (gate_at, lambda: holder.get("saver_started", False))
             src = H.OuterProxy(saver)
             holder["proxy"] = src
         observers = []
